@@ -2,7 +2,7 @@
 # dev helper: run the quick checks of all claimed properties on /repo (or $CIRC_REPO) in 4 parallel lanes,
 # each in its own scratch area (does not touch /verif/evidence). Prints one line per property.
 cd /verif
-ids=${@:-C01 C02 C03 C04 C05 C06 C07 C08 C09 C10 C11 C12 C13 C14 C15 C16 C17 C18 C19}
+ids=${@:-C01 C02 C03 C04 C05 C06 C07 C08 C09 C10 C11 C12 C13 C14 C15 C16 C17 C18 C19 C20}
 lane() { n=$1; shift; for id in "$@"; do s=$(date +%s); out=$(VERIF_SCRATCH=/tmp/regress/l$n VERIF_JOBS=${LJOBS:-4} ./check $id --tier ${TIER:-quick} 2>&1); rc=$?; echo "$id rc=$rc $(( $(date +%s)-s ))s :: $(echo "$out" | grep -E '^VIOLATION|^UNDECIDED' | head -2 | cut -c1-220)"; done; }
 mkdir -p /tmp/regress
 set -- $ids; a=(); b=(); c=(); d=(); i=0
